@@ -14,6 +14,9 @@ RENAME = {
 }
 
 
+EXTRA_HELPERS = set()
+
+
 def _tag(cfg):
     return "" if cfg == "default" else "@" + cfg
 
@@ -35,6 +38,14 @@ def run(ck, ctx):
     ck.assume("a behaviour-preserving rewrite of ONE parser copy in a style outside the normalisation is reported as drift (the repo documents "
               "the two functions as copies to keep in sync by hand)")
     tree = A.load(FILES)
+    # twins discovered by name: every `foo_zc` next to a `foo` (helpers extracted from both parsers in step)
+    names = {f["name"] for f in tree["fns"]}
+    for f in tree["fns"]:
+        nm = f["name"]
+        if nm.endswith("_zc") and nm[:-3] in names and nm not in RENAME:
+            RENAME[nm] = nm[:-3]
+            if nm[:-3] not in HELPERS:
+                EXTRA_HELPERS.add(nm[:-3])
     ck.configs.append("source")
     ck.fn_count += len(tree["fns"])
     _r161(ck, tree)
@@ -175,7 +186,7 @@ HELPERS = ("extract_string", "extract_sds", "extract_integer", "extract_float", 
 
 def _r162(ck, tree):
     n = 0
-    for h in HELPERS:
+    for h in list(HELPERS) + sorted(EXTRA_HELPERS):
         a = A.find_fn(tree, h, "Command")
         b = A.find_fn(tree, h + "_zc", "Command")
         if len(a) != 1 or len(b) != 1:
